@@ -22,6 +22,15 @@ def varargs_matcher(f, case):
             and case.get('nvals') == 0)
 
 
+# parameter names that receivers / variadic parameters usually carry.  NOT in the pool: `self` - the unchanged library
+# takes ANY parameter named self for the receiver (FunctionCall._params_without_self drops it from the parameters it checks:
+# `def f(a: int, self)` called f(a=1, self=2) runs the body; `def f(self, b: int)` called by keyword raises IndexError from
+# FunctionCall.__init__): reported defect, registered for C03 as C03-parameter-named-self / C03-K10-self-by-keyword
+PARAM_NAMES = ['cls', 'cls', 'args', 'kwargs', 'mcs', 'klass', 'other', 'this', 'instance', 'owner']
+BINARY_DUNDERS = ['__add__', '__sub__', '__mul__', '__matmul__', '__or__', '__and__', '__eq__', '__ne__', '__lt__', '__ge__', '__getitem__']
+SINGLETONS = [['notimplemented'], ['ellipsis'], ['none']]
+
+
 def missing_stream(ck, cases):
     """signatures with a parameter without annotation / without return annotation, at any position"""
     import gen_checker as G
@@ -30,7 +39,10 @@ def missing_stream(ck, cases):
     out = []
     for _ in range(n):
         k = rng.choice([1, 2, 3, 4])
-        miss = rng.randrange(k + 1)          # index of the un-annotated parameter; k = the return annotation is missing
+        kind = rng.choice(['def', 'def', 'def', 'async', 'method', 'dunder'])
+        # index of the un-annotated parameter; k = the return annotation is missing (what a special method hands back - NotImplemented
+        # for an operand it does not support - is judged at the return annotation: half of the special methods lack that one)
+        miss = k if (kind == 'dunder' and rng.random() < 0.5) else rng.randrange(k + 1)
         bare_instead = rng.random() < 0.4     # a bare generic instead of nothing
         params = []
         for i in range(k):
@@ -49,7 +61,35 @@ def missing_stream(ck, cases):
                 params[miss]['omit'] = rng.random() < 0.7
         out.append({'thread': True} if rng.random() < 0.08 else {})
         out[-1].update({'stream': 'missing', 'obs': 'missing', 'params': params, 'miss': miss, 'bare': rng.choice(CC.BARE_T + CC.BARE_B) if bare_instead else None,
-                    'ret_val': rng.choice(G.SCALARS[:8] + [['list', []]]), 'ctx': G.CTX, 'kind': rng.choice(['def', 'def', 'async', 'method'])})
+                    'ret_val': rng.choice(SINGLETONS if rng.random() < 0.25 else G.SCALARS[:8] + [['list', []]]), 'ctx': G.CTX, 'kind': kind})
+        c = out[-1]
+        # the NAMES of the parameters: the names receivers / variadic parameters usually carry, on ordinary parameters of any
+        # position (the wrapper recognises receivers and variadics by name / by source text)
+        names = [f'p{i}' for i in range(k)]
+        pool = [x for x in PARAM_NAMES]
+        rng.shuffle(pool)
+        for i in range(k):
+            if rng.random() < (0.5 if i == miss else 0.12):
+                names[i] = next(x for x in pool if x not in names)
+        if names != [f'p{i}' for i in range(k)]:
+            c['names'] = names
+        if c['kind'] == 'dunder':
+            # special methods: binary operators (one parameter, called explicitly or by the operator), __call__ with any arity
+            if k == 1 and rng.random() < 0.85:
+                c['dunder'] = rng.choice(BINARY_DUNDERS)
+                c['via_op'] = rng.random() < 0.5
+                params[0]['default'] = False
+            else:
+                c['dunder'] = '__call__'
+        # a function that collects positional values may be called positionally
+        if rng.random() < 0.15 and 'args' not in names and not c.get('via_op'):
+            c['posargs'] = rng.choice([1, 1, 2, 3])
+        # value-dependent results: the body hands back a singleton for the class of its first argument and RV otherwise
+        if miss == k and rng.random() < 0.5:
+            v0 = params[0]['val']
+            tname = {'none': 'NoneType', 'inst': None, 'class': 'type'}.get(v0[0], v0[0])
+            hit = tname is not None and rng.random() < 0.75
+            c['ret_by_type'] = [[tname if hit else 'Fraction', rng.choice(SINGLETONS)]]
     ck.missing = out
 
 
@@ -69,12 +109,16 @@ def run(tier, seed, replay=None):
         else:
             ck.missing = []
         res = ck.run_impl('w_checker', ck.missing, timeout=900) if ck.missing else []
-        hist = {}
+        hist, dims = {}, {}
         for c, r in zip(ck.missing, res):
             if r is None or 'error' in r:
                 ck.oblige('impl-worker:missing', 'correspondence', False, f'{c} -> {r}')
                 continue
-            ck.note_case(json.dumps([c['params'], c['miss'], c['bare'], c['kind']]), nontrivial=True)
+            ck.note_case(json.dumps([c['params'], c['miss'], c['bare'], c['kind'], c.get('names'), c.get('dunder'), c.get('via_op'),
+                                     c.get('posargs'), c.get('ret_by_type'), c['ret_val'] if c['miss'] == len(c['params']) else None]), nontrivial=True)
+            for dim in ('names', 'dunder', 'via_op', 'posargs', 'ret_by_type'):
+                if c.get(dim):
+                    dims[dim] = dims.get(dim, 0) + 1
             hist[CC.OUT_NAMES.get(r['out'], str(r['out']))] = hist.get(CC.OUT_NAMES.get(r['out'], str(r['out'])), 0) + 1
             what = None
             if r['out'] != 1:
@@ -83,8 +127,19 @@ def run(tier, seed, replay=None):
             elif c['miss'] < len(c['params']) and r.get('body_ran'):
                 what = 'the body ran although a parameter annotation is missing / bare'
             if what:
-                ck.violation(what, c, stream='missing', extra={'impl': r})
-        ck.coverage['missing_annotation_stream'] = {'cases': len(ck.missing), 'outcomes': hist}
+                dim = []
+                if c.get('names'):
+                    dim.append('parameter names: ' + ', '.join(c['names']))
+                if c['kind'] == 'dunder':
+                    dim.append(f'the function is the special method {c.get("dunder")} of a plain class' + (', called by its operator' if c.get('via_op') else ''))
+                if c.get('posargs'):
+                    dim.append(f'the signature ends in *args: int and the call is positional ({c["posargs"] - 1} extra values)')
+                if c['miss'] == len(c['params']) and (c.get('ret_by_type') or c['ret_val'] in SINGLETONS):
+                    dim.append(f'the body returns {json.dumps(c["ret_val"])}' + (f', but {json.dumps(c["ret_by_type"][0][1])} when its first argument is a {c["ret_by_type"][0][0]}' if c.get('ret_by_type') else ''))
+                if c.get('thread'):
+                    dim.append('the call was made from another thread')
+                ck.violation(what + (' [' + ' | '.join(dim) + ']' if dim else ''), c, stream='missing', extra={'impl': r})
+        ck.coverage['missing_annotation_stream'] = {'cases': len(ck.missing), 'outcomes': hist, 'dimensions': dims}
         # *args / **kwargs with a missing or bare annotation, 0..3 extra values (full product: finite)
         if replay is None or replay.get('case', {}).get('obs') == 'varargs':
             va = [replay['case']] if replay is not None else \
@@ -144,6 +199,8 @@ def run(tier, seed, replay=None):
             ck.coverage['bare_x_value_zoo_stream'] = {'cases': len(bz), 'outcomes': bh}
     return CC.run('C06', tier, seed, replay, PROPS, judge, extra_streams=extra, extra_units=['Pedantic'],
                   rule_extra='; bare stream: the 15 bare forms x values; missing stream: generated signatures (1-4 parameters, def/async/method) '
-                             'with one missing or bare annotation at a random position, conforming arguments by keyword; bare-zoo stream: the 15 bare '
+                             'with one missing or bare annotation at a random position, conforming arguments by keyword; parameter names cls / args / kwargs / mcs ... '
+                             'at any position, signatures ending in *args called positionally, special methods (__add__ ... __getitem__, __call__; '
+                             'explicitly and by operator), results NotImplemented / Ellipsis / None, value-dependent bodies; bare-zoo stream: the 15 bare '
                              'forms x 78 zoo values (named-tuple instances, objects with _asdict, generators, modules ...) at '
                              'assert_value_matches_type / parameter / return position; a share of all calls from another thread')
